@@ -217,6 +217,7 @@ func c04(p *model.Prog, r *report.Result) {
 	r.Check(bad == nil, "C04.ERR", fkey(runLoop, "dispose", "every-path"), p.Pos(runLoop.Pos()), "the connection is disposed on every exit of RunLoop", "RunLoop can return without disposing the connection")
 	c04Writer(p, r)
 	c04Buf(p, r)
+	c04r13(p, r, "C04.REFUSE")
 	r.Rule("C04.NILF", "fields that lal itself compares with nil somewhere are, in every function of the RTMP server surface, dereferenced only behind the non-nil edge of a test of the same field expression or a dominating non-nil store; reviewed exceptions are listed per (function, field)")
 	{
 		var scope []*ssa.Function
